@@ -350,7 +350,7 @@ func ruleShadowCreateMask(c *Check, rule string) {
 	if bad == 0 {
 		c.Ok(rule, fnLoadTxn+"/shadow-create-mask", fmt.Sprintf("%d paths creating a shadow DBI from a snapshot mask the flags with AllowedShadowDBIFlagsMask (MDB_INTEGERKEY)", n), c.P.Pos(fn.Pos()))
 	}
-	c.Floor(rule, n, 1, "shadow DBI creations in LoadOnce$1")
+	c.Floor(rule, n, 1, "shadow DBI creations in LoadOnce body")
 }
 
 // ruleRawReadRestored (C11-R8): readDBI switches the transaction to raw reads
